@@ -85,8 +85,25 @@ kf("KF-mult-dim-mutates", ["C07"],
 kf("KF-add-loop-guard-forward", ["C06"],
    "add_loop(guard=True) forwarded cursors through one new level instead of two",
    "LoopIR_scheduling.DoAddLoop",
-   {"op": ["add_loop"], "kind": ["carried-not-found", "forward-exception", "dangling"], "args": RE(r", true\]$")},
+   {"op": ["add_loop"], "kind": ["carried-not-found", "forward-exception", "dangling", "gap-moved", "block-moved"], "args": RE(r", true\]$")},
    "seed loops/l1: add_loop(loop, 'r', 'n', guard=True); forward(loop cursor) denotes the new if (a two-step wrap with composed forwarding repairs it, but tests/asplos25/gemmini_schedules.py relies on the wrong forwarding -- `p.forward(child).parent().body()[0]` expects the new `if` -- so the repair cannot be committed with the test suite unedited)")
+kf("KF-block-forward-assert", ["C06"],
+   "forwarding a BLOCK cursor through a move / delete that reorders or removes its end points fails an internal `assert` (new_start <= new_end, len(block) > 0, same parent) instead of raising InvalidCursorError; the failure is loud (no wrong or dangling cursor is produced) but is not the documented report",
+   "internal_cursors.Block._forward_move (asserts after forwarding the end points), API_cursors.lift_cursor (assert len(impl) > 0)",
+   {"kind": ["forward-exception"], "cursor_kind": "block", "exc": "AssertionError"},
+   "seed guard/else2: reorder_stmts(else-branch [1:3]); forward(block else[1:3]) -> AssertionError")
+kf("KF-forward-wrap-block-index", ["C06"],
+   "a block cursor lying inside a wrapped range was forwarded with its own start index instead of the wrapper's",
+   "internal_cursors.Block._forward_wrap.fwd_block (third case)",
+   {"kind": ["forward-exception", "dangling"], "cursor_kind": "block", "exc": ["IndexError", "-"]},
+   "seed dep/scalar_between: divide_loop(i, 2, tail='guard'); forward(block body[1:2] of the loop) -> IndexError",
+   status="fixed", commit="0e43a6ce")
+kf("KF-forward-move-block-attr", ["C06"],
+   "a block cursor whose statements were moved into a different statement list kept the old list's attribute name",
+   "internal_cursors.Block._forward_move (block case)",
+   {"kind": ["forward-exception", "dangling"], "cursor_kind": "block", "exc": ["AttributeError"]},
+   "seed guard/else2: lift_alloc(`t: f32` in the else-branch); forward(block else[2:3]) -> AttributeError 'For' object has no attribute 'orelse'",
+   status="fixed", commit="2ba9c24a")
 kf("KF-join-loops-prefix", ["C01"],
    "join_loops accepted loops whose bodies are [s1,s2] and [s1] (zip-based comparison)",
    "LoopIR.LoopIR_Compare.match_stmts",
